@@ -9,6 +9,7 @@ import (
 
 	"visim/app"
 	"visim/core"
+	"visim/pgfake"
 	"visim/world"
 )
 
@@ -109,6 +110,7 @@ func runC20(c *core.Ctx) *core.Outcome {
 		wrFault := t.Chance(1, 8)
 		emptyIn := t.Chance(1, 3)
 		loadFault := !cfg.KeepPersister && t.Chance(1, 10)
+		faultOff, faultInDriver := t.Int(8), t.Chance(1, 2)
 		if cfg.KeepPersister && twoWorkers {
 			r.s.Worker = t.Int(2)
 		}
@@ -140,9 +142,31 @@ func runC20(c *core.Ctx) *core.Outcome {
 			// answers, the session is not lost over it - the model is not advanced and the requests that follow
 			// are judged as if this one had never been sent (a blocked session is still blocked)
 			before := r.s.LoadFailed
-			r.s.FailLoadThisRequest = true
+			driverFault := cfg.Backend == world.BackPg && r.w.Pg != nil && faultInDriver
+			armed := 0
+			if driverFault {
+				// on the Postgres store the fault is one failing driver call of this request instead (begin, statement,
+				// row fetch, scan, commit - of the load or of the save): the driver's errors have to come through the
+				// backend as errors, and as errors that do not read "no such session"
+				armed = r.w.Pg.Calls() + 1 + faultOff
+				r.w.Pg.Faults[armed] = pgfake.FaultErr
+			} else {
+				r.s.FailLoadThisRequest = true
+			}
 			st := r.s.Request(in, true)
 			o.Counts["requests"]++
+			if driverFault {
+				if r.w.Pg.Calls() >= armed {
+					o.Faults["pg_fail"]++
+				}
+				delete(r.w.Pg.Faults, armed)
+				if st.Panic == "" && !(st.ExecErr != "" && len(st.Moves) == 0 && st.Calls == 0) {
+					// the failing call was not one the load needed (it came after it, or the backend could do
+					// without it): the request was served, and whether its save went through is not known here
+					o.Probes["driver_fault_did_not_stop_the_request"]++
+					break
+				}
+			}
 			if r.s.LoadFailed > before {
 				o.Faults["store_read_error"]++
 				if wasBlocked {
@@ -298,3 +322,4 @@ func clearTerminate(r *modelRun) {
 		store.Close(context.Background())
 	})
 }
+
